@@ -197,5 +197,26 @@ def run(ck):
                     "return true", why="(readers in other workers would lose the fetch)")
     ck.assume("'at most one origin request' over schedules is NOT decided: two requests racing before the first makePublic(), a writer collision (Transients::addWriterEntry throws) and "
               "entries that become private later each fetch on their own; the catch handler of syncCollapsed (anchorToCache() threw -> abort()) and IPC delivery are not modelled")
+    ck.rule("K1 ARGS(StoreEntry::release at displacement sites): an in-progress entry that loses its public key to another transaction, or is found marked for freeing, may "
+            "still have collapsed clients waiting for its response headers; StoreEntry::mayStartHitting() lets them go on only while the private entry is "
+            "`shareableWhenPrivate`, which release(shareable) keeps only for shareable == true.  StoreEntry::forcePublicKey (clashing entry), StoreEntry::adjustVary (base "
+            "object), Store::Controller::evictIfFound and Store::Controller::syncCollapsed call release(true); with release() every waiting collapsed client misses and "
+            "starts its own origin fetch (N clients -> N origin requests)")
+    st18 = ck.facts(["src/store.cc", "src/store/Controller.cc"], whole=False)
+    nrel = 0
+    for fname in ("StoreEntry::forcePublicKey", "StoreEntry::adjustVary", "Store::Controller::evictIfFound", "Store::Controller::syncCollapsed"):
+        f = st18.fn(fname)
+        calls = [(ev, E.strip(ev["x"])) for b in f.blocks.values() for ev in b["ev"] if ev.get("e") == "call" and E.strip(ev["x"]).get("f") == "StoreEntry::release"]
+        ck.need(calls, "C18: %s no longer releases the displaced entry" % fname)
+        for ev, x in calls:
+            nrel += 1
+            a = x.get("a", [])
+            if len(a) == 1 and E.const(a[0]) == 1:
+                ck.ok("K1.displaced-entry-stays-shareable", f.where(ev["l"]), "%s: release(true)" % fname)
+            else:
+                ck.violation("K1.displaced-entry-stays-shareable", "K1|%s|release-not-shareable" % fname, f.where(ev["l"]), "%s releases the displaced entry with %s: it stops being "
+                             "shareable, so clients already collapsed on it fail mayStartHitting() and each start their own origin fetch" % (fname, E.key(x)[:60]))
+    ck.need(nrel >= 4, "C18: expected 4 displacement releases, found %d" % nrel)
+
     ck.assume("byte identity and 'never truncated as complete' for collapsed clients rest on C01/C10 (replyStatus, copyFromShm M1) and are not re-claimed; who broadcasts on new data "
               "(MemStore::write, Rock write completion) belongs to C19/C16")
